@@ -27,7 +27,9 @@ Templates == {"cert-self/1", "cert-self/2", "cert-issued/1", "cert-issued/2", "c
               "cert-issued/n2", "cert-issued/k2", "cert-issued/ra", "cert-issued/rb", "crl/n2", "crl/k2", "cert-self/r3", "cert-self/e0", "crl/e0", "cert-issued/auto/2", "cert-self/rm", "csr/rm",
               "cert-self/s20", "cert-issued/s20", "crl/s20"}
 KidOf(t) == IF t \in {"cert-self/2", "cert-issued/2", "crl/2"} THEN "sha384" ELSE "sha256"
-Interference == {"dn-edit", "key-load", "bad-parse", "csr-parse", "other-kid-same-key", "gen-other", "import-ca"}
+(* "refused-late": generation calls that are refused after part of their input was already looked at (a CRL whose second entry has a *)
+(* date outside the encodable years, a certificate whose last distribution point is not IA5, a request with a field it cannot carry)  *)
+Interference == {"dn-edit", "key-load", "bad-parse", "csr-parse", "other-kid-same-key", "gen-other", "import-ca", "refused-late"}
 
 (* the abstract output of a generation: a function of the template alone ... *)
 Pure(t) == [tbs |-> "tbs:" \o t, full |-> "full:" \o t]
